@@ -320,6 +320,12 @@ def gen_cases(ctx):
         cases.append({"kind": "scene", "spec": scene_spec(rng, i), "place": True})
     for i, why in enumerate(["sphere", "dipole", "pec", "realcoord", "dupname"][:ctx.pick(5, 5)]):
         cases.append({"kind": "scene", "spec": bad_scene(rng, i, why), "place": False, "malformed": why})
+    # configurations carrying an explicit RectilinearGrid (mildly graded at the nanometre scale, coarse graded, uniform widths): the edge
+    # arrays are part of the setup and must come back exactly (graph comparison; not placed: the scenes use grid-coordinate constraints)
+    for i, lohi in enumerate([(16e-9, 24e-9), (80e-9, 120e-9), (20e-9, 20e-9)]):
+        sp = scene_spec(rng, 60 + i)
+        sp["rect_widths"] = [[lohi[0] + (lohi[1] - lohi[0]) * rng.random() for _ in range(nn)] for nn in sp["shape"]] if lohi[0] != lohi[1] else [[lohi[0]] * nn for nn in sp["shape"]]
+        cases.append({"kind": "scene", "spec": sp, "place": False})
     dang = scene_spec(rng, 50)
     cases.append({"kind": "scene", "spec": dict(dang, dangling=True), "place": False, "malformed": "dangling"})
     for i in range(ctx.pick(40, 400)):
